@@ -14,6 +14,7 @@ import (
 	_ "verifharness/ops"
 	_ "verifharness/reads"
 	_ "verifharness/txn"
+	_ "verifharness/wset"
 )
 
 func main() {
